@@ -61,6 +61,7 @@ CheckTypedFault(r) ==
 CheckDrain(r) == IF r.out.res # "err" THEN "cap-ignored" ELSE IF r.pulled > r.cap + Allowance THEN "drained-past-cap" ELSE "ok"
 (* writer: a failing writer makes serialization fail, and what was accepted is a prefix of the fault-free output *)
 CheckWriter(r) == IF r.res # "err" THEN "write-fault-swallowed"
+                  ELSE IF ~r.is_io THEN "write-fault-not-returned-as-the-io-error"
                   ELSE IF Len(r.received) > Len(r.full) \/ SubSeq(r.full, 1, Len(r.received)) # r.received THEN "not-a-prefix"
                   ELSE "ok"
 Check(r) == CASE r.kind = "sched" -> CheckSched(r) [] r.kind = "writer" -> CheckWriter(r) [] r.kind = "borrow" -> CheckBorrow(r) [] r.kind = "drain" -> CheckDrain(r) [] r.kind = "enc" -> CheckEnc(r) [] r.kind = "agree" -> CheckAgree(r)
